@@ -147,7 +147,7 @@ pub fn run(tier: Tier, seed: u64) -> i32 {
     let mut rep = Report::new("C15", tier, seed);
     rep.exhaustive = true;
     rep.level = "fault_enumeration";
-    rep.rule = "enumeration: for every fund-moving instruction (swap x2, two-hop x2, increase x3, decrease x2, reposition, collect fees x2, collect reward x2, collect protocol fees x2, set-emissions x2, initialize reward x2, update-fees, close/reset/lock/transfer/bundle family, pool-level setters) a golden invocation that must succeed, then for every account slot that is bound by the property (pool, vaults, tick arrays, oracle, position, mints, reward vault, token/memo/system/ATA programs, config, lock config, bundle) every other account of the same kind found in the bank is substituted (vault <- every other token account of the same mint incl. other pools' vaults, the pool's own reward vaults and user accounts; tick array / oracle / position <- those of other pools; mint <- other mints; program <- other executables ...): the instruction must fail. User-owned token account slots are substituted with accounts of another mint (must fail). Pair substitutions: position + its token account of a position in another pool (same owner); second leg of a two-hop replaced by the first pool. distinct = (instruction, slot, kind of substitute)".into();
+    rep.rule = "enumeration: for every fund-moving instruction (swap x2, two-hop x2, increase x3, decrease x2, reposition, collect fees x2, collect reward x2, collect protocol fees x2, set-emissions x2, initialize reward x2, update-fees, close/reset/lock/transfer/bundle family, pool-level setters) a golden invocation that must succeed, then for every account slot that is bound by the property (pool, vaults, tick arrays, oracle, position, mints, reward vault, token/memo/system/ATA programs, config, lock config, bundle) every other account of the same kind found in the bank is substituted (vault <- every other token account of the same mint incl. other pools' vaults, the pool's own reward vaults and user accounts; tick array / oracle / position <- those of other pools; mint <- other mints; program <- other executables ...): the instruction must fail. User-owned token account slots are substituted with accounts of another mint (must fail). Pair substitutions: position + its token account of a position in another pool (same owner); second leg of a two-hop replaced by the first pool. v1 instructions (increase, decrease, swap, collect fees, collect protocol fees) on a pool over two extension-less Token-2022 mints with either token program in the slot must fail. distinct = (instruction, slot, kind of substitute)".into();
     rep.assumptions = vec!["the bound/free classification of slots is written in the harness from the property statement".into(), "substitutes are the accounts present in the catalogue world (6 pools over shared and disjoint mints, 2 configs, reward vaults holding pool mints)".into()];
     let mut acc = Acc::default();
     let flavours = tier.pick(1, 3);
@@ -300,7 +300,49 @@ pub fn run(tier: Tier, seed: u64) -> i32 {
             }
         }
     }
+    // ---- v1 instructions name exactly the Token program: over a Token-2022 pool they must fail whichever
+    // token program the slot holds (the mints here carry no extension, so unchecked transfers would go through)
+    {
+        let mut bs = build_base(seed ^ 0x22);
+        let bank = bs.w.bank.clone();
+        let (p, i, u) = (bs.p_22, bs.pos_22, bs.owner);
+        let mut probes: Vec<(&'static str, Ix)> = vec![];
+        probes.push(("increase_liquidity", bs.w.modify_v1(i).increase_liquidity(1_000_000, u64::MAX, u64::MAX)));
+        probes.push(("decrease_liquidity", bs.w.modify_v1(i).decrease_liquidity(1_000_000, 0, 0)));
+        let pool = bs.w.pools[p].clone();
+        let pi = bs.w.positions[i].clone();
+        let cfg = bs.w.configs[pool.config].clone();
+        let (oa, ob) = (bs.w.user_token(u, pool.mint_a), bs.w.user_token(u, pool.mint_b));
+        let arrays = bs.w.swap_arrays(p, true);
+        probes.push((
+            "swap",
+            b::Swap { token_program: crate::world::TOKEN, token_authority: bs.w.users[u].key, whirlpool: pool.key, token_owner_account_a: oa, token_vault_a: pool.vault_a, token_owner_account_b: ob, token_vault_b: pool.vault_b, tick_array_0: arrays[0], tick_array_1: arrays[1], tick_array_2: arrays[2], oracle: pool.oracle }
+                .ix(1_000_000, 0, 0, true, true),
+        ));
+        probes.push((
+            "collect_fees",
+            b::CollectFees { whirlpool: pool.key, position_authority: bs.w.users[pi.owner].key, position: pi.position, position_token_account: pi.token_account, token_owner_account_a: oa, token_vault_a: pool.vault_a, token_owner_account_b: ob, token_vault_b: pool.vault_b, token_program: crate::world::TOKEN }.ix(),
+        ));
+        probes.push((
+            "collect_protocol_fees",
+            b::CollectProtocolFees { whirlpools_config: cfg.key, whirlpool: pool.key, collect_protocol_fees_authority: cfg.collect_protocol_fees_authority, token_vault_a: pool.vault_a, token_vault_b: pool.vault_b, token_destination_a: oa, token_destination_b: ob, token_program: crate::world::TOKEN }.ix(),
+        ));
+        for (n, ix) in probes {
+            for (what, prog) in [("token_program", crate::world::TOKEN), ("token_2022_program", crate::world::TOKEN22)] {
+                let vix = ix.clone().with_key("token_program", prog);
+                let (o, _) = bs.w.simulate(&bank, &vix);
+                acc.evaluations += 1;
+                acc.situation(format!("v1_on_2022_pool:{n}:{what}"));
+                if o.ok() {
+                    acc.violation(format!("c15:{n}:token_program:v1_instruction_on_token2022_pool"), format!("{n} (v1) succeeded on a Token-2022 pool with the {what} in its token program slot"), json!({"instruction": crate::hist::ix_brief(&vix)}));
+                } else {
+                    acc.count("v1_on_token2022_pool_rejected");
+                }
+            }
+        }
+    }
     rep.acc = acc;
+    rep.floor("v1_on_token2022_pool_rejected", 10);
     rep.floor("goldens_ok", 60);
     rep.floor("substitutions_rejected", 3000);
     rep.floor("rejected:token_account_same_mint", 200);
